@@ -438,6 +438,10 @@ def export_prefix(pre: Prefix) -> vlsir.SIPrefix:
 def export_prefixed(pref: Prefixed) -> vlsir.Prefixed:
     """Export a `Prefixed` number"""
 
+    # Equal values are exported alike, however they were written: `1000 * µ` as `1 * m`.
+    # (Caches keyed by parameter values hand out whichever spelling came first.)
+    pref = pref.canonized()
+
     # Export the metric prefix
     prefix = export_prefix(pref.prefix)
 
